@@ -75,13 +75,21 @@ func executeUDP(c *fw.Ctx, ru *Run) {
 		cl.stream = oracle.Stream(streamDomain, uint64(fw.Mix(c.Seed, "udp", ru.Index, k)), perConn*ru.Datagram)
 		clients[k] = cl
 	}
-	for d := 0; d < perConn; d++ {
-		for k, cl := range clients {
-			pc.Inject(cl.stream[d*ru.Datagram:(d+1)*ru.Datagram], vnet.UDPAddr(fmt.Sprintf("198.19.%d.%d", (base>>8)&0xff, base&0xff), 3000+k))
+	// the feeder keeps the socket's queue full (Inject blocks while the throttled readers are behind) until the
+	// listener is closed
+	fed := make(chan struct{})
+	go func() {
+		defer close(fed)
+		for d := 0; d < perConn; d++ {
+			for k, cl := range clients {
+				pc.Inject(cl.stream[d*ru.Datagram:(d+1)*ru.Datagram], vnet.UDPAddr(fmt.Sprintf("198.19.%d.%d", (base>>8)&0xff, base&0xff), 3000+k))
+			}
 		}
-	}
+	}()
 	time.Sleep(time.Duration(ru.DurationMs) * time.Millisecond)
 	app.Stop()
+	_ = pc.Close()
+	<-fed
 	grace := time.Now().Add(2 * time.Second)
 	for _, cl := range clients {
 		d := time.Until(grace)
